@@ -63,3 +63,24 @@ package otlp
 //@   site call append #5:
 //@     assert [summary-point-keeps-its-own-time] arg1[0].TimeUnixNano == dataPoint.TimeUnixNano && arg1[0].Name == metric.Name
 //@ end
+
+// C16 (resource attributes are preserved on every log record of the resource):
+// EVERY attribute of the OTLP resource is copied into the stored resource
+// information — the routing attribute that names the target index is one of them
+// and does not end the copy.  Ghost resAttrStored counts the copies.
+//@ ghostdecl resAttrStored int
+//@ func extractKeyValue
+//@   assumed
+//@   pure
+//@   note frame only (ASSUMED): converts one protobuf key/value pair
+//@ end
+//@ func extractResourceInfo
+//@   props C16
+//@   requires resourceLog != nil
+//@   ghostinit ghost(0, "resAttrStored") == 0
+//@   site mapupdate resource.Attributes[key] #1:
+//@     ghostset ghost(0, "resAttrStored") = ghost(0, "resAttrStored") + 1
+//@   loop 1:
+//@     invariant [one-copy-per-attribute-so-far] ghost(0, "resAttrStored") == rangeindex + 1 && rangeindex + 1 <= len(resourceLog.Resource.Attributes) && resourceLog.Resource != nil
+//@   ensures [every-resource-attribute-is-copied] implies(result2 == nil && resourceLog.Resource != nil, ghost(0, "resAttrStored") == len(resourceLog.Resource.Attributes))
+//@ end
